@@ -544,7 +544,7 @@ impl Prog {
         while it.len() > 0 {
             body.push(PG::parse(&mut it));
         }
-        Prog { nvars, nq, take, body, raw: toks[4].split(':').next() == Some("raw") }
+        Prog { nvars, nq, take, body, raw: matches!(toks[4].split(':').next(), Some("raw") | Some("rst")) }
     }
 }
 
@@ -726,6 +726,101 @@ pub fn run_raw_b(p: &Prog, budget: u64) -> RunOut {
         Ok(more) => RunOut::Answers(answers, more),
         Err(site) if site == "BUDGET" => RunOut::Budget(answers),
         Err(site) => RunOut::Panic(site),
+    }
+}
+
+/// STATE DUMP of the real solver state: the finite-domain store (variable -> values) and the constraint store
+/// (kind + walk*ed operands), canonical (sorted).  Variables are the program's (`v<i>`); anything else is `h<k>`.
+pub fn dump_state(state: &proto_vulcan::state::State<DU, DE>, vars: &Vars) -> String {
+    let mut rd = Reader::new(vars);
+    let mut show = |t: &LT| -> String {
+        let w = state.smap_ref().walk_star(t);
+        let x = rd.read(&w);
+        x.subst(&|y| match y {
+            T::Var(k) if *k >= 1000 => Some(T::Str(90 + (*k - 1000))),
+            _ => None,
+        })
+        .text()
+    };
+    let mut doms: Vec<String> = state
+        .dstore_ref()
+        .iter()
+        .map(|(x, d)| {
+            let vals: Vec<String> = d.iter().map(|v| v.to_string()).collect();
+            format!("{}={{{}}}", show(x), vals.join(","))
+        })
+        .collect();
+    doms.sort();
+    let mut cs: Vec<String> = state
+        .cstore_ref()
+        .iter()
+        .map(|c| {
+            let dbg = format!("{:?}", c);
+            let kind: String = dbg.chars().take_while(|ch| ch.is_alphanumeric()).collect();
+            let ops: Vec<String> = c.operands().iter().map(|o| show(o)).collect();
+            let name = match kind.as_str() {
+                "DisequalityConstraint" => "diseq",
+                "PlusFdConstraint" => "plusfd",
+                "MinusFdConstraint" => "minusfd",
+                "TimesFdConstraint" => "timesfd",
+                "LessThanOrEqualFdConstraint" => "ltefd",
+                "DiseqFdConstraint" => "diseqfd",
+                "DistinctFdConstraint" => "distinctfd",
+                "DistinctFd2Constraint" => "distinctfd2",
+                "PlusZConstraint" => "plusz",
+                "TimesZConstraint" => "timesz",
+                other => other,
+            }
+            .to_string();
+            if name == "diseq" {
+                // operands come as var, term, var, term, … in hash order: sort the pairs
+                let mut pairs: Vec<String> = ops.chunks(2).map(|p| format!("{}!={}", p[0], p.get(1).cloned().unwrap_or_default())).collect();
+                pairs.sort();
+                format!("diseq {}", pairs.join(" & "))
+            } else {
+                format!("{} {}", name, ops.join(" , "))
+            }
+        })
+        .collect();
+    cs.sort();
+    format!("D[{}] C[{}]", doms.join(" ; "), cs.join(" ; "))
+}
+
+/// raw run (the states the body goal produces) with a dump of every delivered state
+pub fn run_raw_dump(p: &Prog, budget: u64) -> String {
+    use proto_vulcan::solver::Solver;
+    use proto_vulcan::state::State;
+    crate::mark(&p.line());
+    let mut vars = Vars::new(p.nvars);
+    let goals: Vec<Goal<DU, DE>> = p.body.iter().map(|g| build::<Goal<DU, DE>>(g, &mut vars)).collect();
+    let goal: Goal<DU, DE> = proto_vulcan::operator::conj::Conj::from_array(&goals);
+    let qvars: Vec<LT> = vars.v[..p.nvars].to_vec();
+    let mut lines: Vec<String> = vec![];
+    proto_vulcan::verif::set_budget(budget);
+    let r = crate::catch(|| {
+        let mut solver: Solver<DU, DE> = Solver::new((), false);
+        let mut stream = solver.start(&goal, State::new(DU::default()));
+        while let Some(state) = solver.next(&mut stream) {
+            let mut rd = Reader::new(&vars);
+            let terms: Vec<String> = qvars.iter().map(|q| rd.read(&state.smap_ref().walk_star(q)).text()).collect();
+            lines.push(format!("{} # {}", terms.join(" ; "), dump_state(&state, &vars)));
+        }
+    });
+    LAST_TICKS.with(|c| c.set(proto_vulcan::verif::steps()));
+    proto_vulcan::verif::set_budget(u64::MAX);
+    match r {
+        Ok(()) => {
+            if lines.is_empty() {
+                "none".into()
+            } else {
+                lines.join(" || ")
+            }
+        }
+        Err(site) if site == "BUDGET" => {
+            lines.push("BUDGET".into());
+            lines.join(" || ")
+        }
+        Err(site) => format!("PANIC {}", site),
     }
 }
 
